@@ -116,6 +116,8 @@ enum Cond {
     Join(usize),
     JoinAll,
     Flag(usize),
+    /// until a hook label with this name has been emitted by some thread
+    Label(&'static str),
     Quiesce,
 }
 
@@ -144,10 +146,13 @@ struct SbEntry {
     age: u32,
 }
 
-/// a deferred store becomes visible at the latest when its thread reaches this many further scheduling points
-const SB_MAX_AGE: u32 = 8;
+/// a deferred store becomes visible at the latest when its thread reaches its second scheduling point after the store:
+/// exactly one following load may overtake it (the store-buffer litmus "store x; load y"). Uninstrumented code between
+/// hook points (std Arc counters, system calls) contains locked instructions that would drain a real store buffer, so
+/// nothing longer-lived than this is modelled.
+const SB_MAX_AGE: u32 = 1;
 /// deferred stores per thread
-const SB_CAP: usize = 2;
+const SB_CAP: usize = 1;
 
 #[derive(Clone)]
 pub struct EngineCfg {
@@ -171,6 +176,8 @@ pub struct EngineCfg {
     /// (costed alternative) while the thread goes on, until its next read-modify-write, SeqCst store or fence, cell
     /// write, lock / blocking operation, or SB_MAX_AGE further points; the thread's own loads see the held value
     pub tso: bool,
+    /// only stores issued from these source files (path suffixes) may be held back
+    pub tso_files: &'static [&'static str],
 }
 
 impl Default for EngineCfg {
@@ -185,6 +192,7 @@ impl Default for EngineCfg {
             post_points: false,
             spurious: false,
             tso: false,
+            tso_files: &[],
         }
     }
 }
@@ -462,6 +470,15 @@ impl Engine {
         self.resched(st, me);
     }
 
+    /// block a harness thread until some thread has passed the hook label `name` (time shaping: puts the harness
+    /// thread's next action right behind an internal step of the code under test)
+    pub fn wait_label(&self, name: &'static str) {
+        let me = me();
+        let mut st = self.lock();
+        st.th[me].blocked = Some(Cond::Label(name));
+        self.resched(st, me);
+    }
+
     /// an explicit scheduling point for harness code
     pub fn sched_point(&self) {
         let me = me();
@@ -665,6 +682,7 @@ impl Engine {
             Some(Cond::Join(j)) => st.th[*j].finished,
             Some(Cond::JoinAll) => st.th.iter().enumerate().all(|(i, x)| i == t || !x.harness || x.finished),
             Some(Cond::Flag(p)) => unsafe { &*(*p as *const AtomicBool) }.load(Ordering::SeqCst),
+            Some(Cond::Label(name)) => st.labels.iter().any(|l| l.1 == *name),
             Some(Cond::Quiesce) => false,
         }
     }
@@ -734,6 +752,7 @@ impl Engine {
                 Some(Cond::Join(_)) => 6,
                 Some(Cond::JoinAll) => 7,
                 Some(Cond::Flag(_)) => 8,
+                Some(Cond::Label(_)) => 10,
                 Some(Cond::Quiesce) => 9,
             };
             h = fnv(h, ((t.pending as u64) << 8) | (k << 1) | t.finished as u64);
@@ -987,6 +1006,7 @@ impl Hooks for Engine {
         }
         let mut st = self.lock();
         self.record(&mut st, me, op, addr, loc);
+        let mut flush_after = false;
         if st.cfg.tso && !st.th[me].sbuf.is_empty() {
             // read-modify-writes (locked instructions), fences and plain writes do not overtake held stores;
             // stores are handled in defer_store (FIFO), loads may overtake
@@ -994,9 +1014,9 @@ impl Hooks for Engine {
             for e in st.th[me].sbuf.iter_mut() {
                 e.age += 1;
             }
-            if drain || st.th[me].sbuf.iter().any(|e| e.age > SB_MAX_AGE) {
-                Self::flush(&mut st, me);
-            }
+            // the held stores become visible when this thread really proceeds (after the scheduling decision below):
+            // until then the others still see the old values
+            flush_after = drain || st.th[me].sbuf.iter().any(|e| e.age > SB_MAX_AGE);
         }
         if st.branching && crate::alloc::quarantined(addr) {
             // the operation that is about to execute touches memory that has been freed
@@ -1011,10 +1031,17 @@ impl Hooks for Engine {
             self.finish_locked(st, ST_FAIL, &clause, &msg);
         }
         if st.cfg.coarse && st.th[me].bracket > 0 {
+            if flush_after {
+                Self::flush(&mut st, me);
+            }
             return;
         }
         let branching = st.branching;
         self.resched(st, me);
+        if flush_after {
+            let mut st = self.lock();
+            Self::flush(&mut st, me);
+        }
         // the operation executes now: others may have run since the first look
         if branching && crate::alloc::quarantined(addr) {
             let st = self.lock();
@@ -1062,7 +1089,9 @@ impl Hooks for Engine {
         if !st.cfg.tso {
             return false;
         }
-        if !st.branching || st.th[me].sbuf.len() >= SB_CAP {
+        let site = Self::site_str(&st, st.th[me].pending);
+        let file = site.rsplit_once(':').map(|x| x.0).unwrap_or(&site);
+        if !st.branching || st.th[me].sbuf.len() >= SB_CAP || !st.cfg.tso_files.iter().any(|f| file.ends_with(f)) {
             Self::flush(&mut st, me);
             return false;
         }
